@@ -110,6 +110,17 @@ func (s BatchedPrivateTokenRequestState) FinalizeTokens(tokenResponseEnc []byte)
 
 // https://datatracker.ietf.org/doc/html/draft-robert-privacypass-batched-tokens-00#name-client-to-issuer-request
 func (c BatchedPrivateClient) CreateTokenRequest(challenge []byte, nonce [][]byte, tokenKeyID []byte, verificationKey *oprf.PublicKey) (BatchedPrivateTokenRequestState, error) {
+	// The token has fixed-width fields: with a nonce or key ID of another length the finalized tokens would neither
+	// carry the request's values nor verify
+	if len(tokenKeyID) != 32 {
+		return BatchedPrivateTokenRequestState{}, fmt.Errorf("invalid token key ID length")
+	}
+	for _, n := range nonce {
+		if len(n) != 32 {
+			return BatchedPrivateTokenRequestState{}, fmt.Errorf("invalid nonce length")
+		}
+	}
+
 	client := oprf.NewVerifiableClient(oprf.SuiteRistretto255, verificationKey)
 
 	numTokens := len(nonce)
@@ -160,6 +171,17 @@ func (c BatchedPrivateClient) CreateTokenRequest(challenge []byte, nonce [][]byt
 }
 
 func (c BatchedPrivateClient) CreateTokenRequestWithBlinds(challenge []byte, nonces [][]byte, tokenKeyID []byte, verificationKey *oprf.PublicKey, encodedBlinds [][]byte) (BatchedPrivateTokenRequestState, error) {
+	// The token has fixed-width fields: with a nonce or key ID of another length the finalized tokens would neither
+	// carry the request's values nor verify
+	if len(tokenKeyID) != 32 {
+		return BatchedPrivateTokenRequestState{}, fmt.Errorf("invalid token key ID length")
+	}
+	for _, n := range nonces {
+		if len(n) != 32 {
+			return BatchedPrivateTokenRequestState{}, fmt.Errorf("invalid nonce length")
+		}
+	}
+
 	client := oprf.NewVerifiableClient(oprf.SuiteRistretto255, verificationKey)
 
 	numTokens := len(nonces)
